@@ -184,12 +184,12 @@ type Obs struct {
 
 var GetterNames = []string{"profile", "client-id", "lifecycle", "impl-id", "boot-seed", "cert-ref", "sw-components", "nonce", "inst-id", "vsi"}
 
-func (o *Obs) Getters() []Res {
+func (o Obs) Getters() []Res {
 	return []Res{o.Profile, o.ClientID, o.Lifecycle, o.ImplID, o.BootSeed, o.CertRef, o.Comps, o.Nonce, o.InstID, o.VSI}
 }
 
 // String renders the observation compactly (used as digest and in replays).
-func (o *Obs) String() string {
+func (o Obs) String() string {
 	var sb strings.Builder
 	fmt.Fprintf(&sb, "validate=%s", o.Validate)
 	for i, r := range o.Getters() {
@@ -205,12 +205,12 @@ func (r Res) String() string {
 	return "!" + r.C.String()
 }
 
-func RB(b []byte) string   { return "h'" + hex.EncodeToString(b) + "'" }
-func RS(s string) string   { return fmt.Sprintf("%q", s) }
-func RI(i int64) string    { return fmt.Sprintf("%d", i) }
-func okB(b []byte) Res     { return Res{OK, RB(b)} }
-func okS(s string) Res     { return Res{OK, RS(s)} }
-func fail(c Class) Res     { return Res{C: c} }
+func RB(b []byte) string { return "h'" + hex.EncodeToString(b) + "'" }
+func RS(s string) string { return fmt.Sprintf("%q", s) }
+func RI(i int64) string  { return fmt.Sprintf("%d", i) }
+func okB(b []byte) Res   { return Res{OK, RB(b)} }
+func okS(s string) Res   { return Res{OK, RS(s)} }
+func fail(c Class) Res   { return Res{C: c} }
 
 // CompRes renders what the five getters of one component are expected to
 // return: value or class per field.
